@@ -1,18 +1,18 @@
 #!/bin/sh
-# usage: tools/seed_matrix.sh [checks...]   -- runs every seeded change against the given checks (default: all claimed) and writes seeded/matrix.tsv
+# usage: tools/seed_matrix.sh [checks...]   -- runs every seeded change against the given checks (default: all claimed) and appends to seeded/matrix.tsv
 cd /verif
 CHECKS=${@:-$(python3 -c "import json; print(' '.join(c['property_id'] for c in json.load(open('MANIFEST.json'))['checks']))")}
 OUT=seeded/matrix.tsv
-for s in seeded/*/; do
+for s in seeded/*_s*/; do
   n=$(basename $s)
+  D=$(mktemp -d /tmp/mutrepo-XXXXXX); cp -r /repo/include $D/include
+  (cd $D && patch -s -p1 < /verif/$s/patch.diff) || { echo "$n	-	patch-failed" >> $OUT; rm -rf $D; continue; }
   for c in $CHECKS; do
     if grep -q "^$n	$c	" $OUT 2>/dev/null; then continue; fi
-    D=$(mktemp -d /tmp/mutrepo-XXXXXX); cp -r /repo/include $D/include
-    (cd $D && patch -s -p1 < /verif/$s/patch.diff) || { echo "$n	$c	patch-failed" >> $OUT; rm -rf $D; continue; }
-    res=$(SYMX_REPO=$D SYMX_REPLAY=$D/replay VERIF_JOBS=${VERIF_JOBS:-8} timeout 2400 ./check $c --tier quick --no-evidence 2>&1)
+    res=$(SYMX_REPO=$D SYMX_REPLAY=$D/replay SYMX_BUILD=$D/build VERIF_JOBS=${VERIF_JOBS:-8} timeout 2400 ./check $c --tier quick --no-evidence 2>&1)
     rc=$?
     nv=$(printf '%s\n' "$res" | grep -c '^VIOLATION'); nu=$(printf '%s\n' "$res" | grep -c '^UNCONFIRMED'); ne=$(printf '%s\n' "$res" | grep -c '^TASK-ERROR\|BUILD FAILED')
     echo "$n	$c	rc=$rc	violations=$nv	unconfirmed=$nu	errors=$ne" >> $OUT
-    rm -rf $D
   done
+  rm -rf $D
 done
